@@ -71,28 +71,31 @@ def main():
     os.remove(demo_dst)
     run("git checkout -- .", wt)
 
-    # 2. checks against the patched /repo
-    rc, o = run("git status --porcelain", "/repo")
-    if o.strip():
-        res["error"] = "/repo not clean: " + o
+    # 2. checks against the patched tree: the scratch worktree is moved to /repo's current HEAD, the patch
+    #    applied there, and the quick checks run from a private copy of /verif (tools/altrepo.sh), so that
+    #    /repo and /verif/evidence stay untouched
+    head = subprocess.run("git -C /repo rev-parse HEAD", shell=True, capture_output=True, text=True).stdout.strip()
+    run("git checkout -q --detach %s" % head, wt)
+    rc, o = run("git apply %s || git apply --3way %s" % (patch, patch), wt)
+    if rc != 0:
+        res["error"] = "patch does not apply to current HEAD: " + o[-500:]
+        run("git checkout -- .", wt)
         return finish(pid, x, res, patch, demo)
-    run("git apply %s" % patch, "/repo")
     res["detected_by"] = []
     res["check_results"] = {}
+    os.rename(out, hidden)
     try:
         for c in checks:
             t0 = time.time()
-            rc, o = run("./check check %s --tier quick" % c, "/verif", timeout=3600)
+            rc, o = run("tools/altrepo.sh %s check %s --tier quick" % (wt, c), "/verif", timeout=3600)
             lines = [l for l in o.splitlines() if l.startswith("violation:") or l.startswith("VIOLATION") or l.startswith("INCONCLUSIVE") or "BUILD-ERROR" in l]
             res["check_results"][c] = {"exit": rc, "wall_s": round(time.time() - t0, 1), "lines": [l[:400] for l in lines[:6]]}
-            res["ran"].append("./check check %s --tier quick (patch applied to /repo) -> exit %d" % (c, rc))
+            res["ran"].append("tools/altrepo.sh <patched worktree at %s> check %s --tier quick -> exit %d" % (head[:7], c, rc))
             if rc == 1:
                 res["detected_by"].append(c)
     finally:
-        run("git checkout -- .", "/repo")
-        shutil.rmtree("/verif/replays", ignore_errors=True)
-        # evidence files were rewritten by runs against the patched tree: restore the committed ones
-        run("git checkout -- evidence", "/verif")
+        os.rename(hidden, out)
+        run("git checkout -- . && git reset -q", wt)
     return finish(pid, x, res, patch, demo)
 
 def finish(pid, x, res, patch, demo):
